@@ -52,7 +52,7 @@ type Scenario struct {
 	SetupOrder  []int  `json:"setup_order"` // medias set up, in this order
 	UseSetupAll bool   `json:"use_setup_all"`
 	Packets     int    `json:"packets"`
-	KeepAlive   bool   `json:"keep_alive"` // stay long enough for keep-alives to be sent
+	KeepAlive   bool   `json:"keep_alive"`       // stay long enough for keep-alives to be sent
 	Tunnel      string `json:"tunnel,omitempty"` // lib workload over tcp: "" | http | ws (RTSP over HTTP / WebSocket)
 	// HasBack / BackAt (lib workload, play): the stream's description also holds a back channel
 	// at this position; the client does not ask for back channels, so it must neither see it
